@@ -19,7 +19,7 @@ from props import lib_exec as X
 from props import lib_server as L
 
 GENERATORS = ["server", "exec", "store", "pdu", "framer_tcpascii", "framer_rtubin", "exec_other"]
-PROP_FILES = ["C09_e2e", "C09_e2e_ascii", "C09_e2e_rtu", "C09_e2e_ext", "C09_e2e_rtu_ext"]
+PROP_FILES = ["C09_e2e", "C09_e2e_ascii", "C09_e2e_rtu", "C09_e2e_ext"]
 CASE_DEPS = ["theories/CorrE2E.vo", "theories/CorrE2ESerial.vo", "theories/CorrE2EExt.vo"]
 TRUSTED = [
     "end-to-end composition (Props/C09_e2e.v): hand-written glue in theories/EndToEnd.v — request object -> execute "
@@ -515,19 +515,17 @@ def ext_case_of(sc):
 
 
 def ext_suites(tier):
-    out = []
+    """one suite for the four front-end x framing combinations (the combination is enumerated, never drawn)"""
+    cases = []
     for kind, fe in EXT_COMBOS:
         name = "e2e_ext_%s_%s" % (kind, fe)
         r = common.rng("C09." + name)
-        n = 100 * (1 if tier == "quick" else 6)
-        cases = []
-        for _ in range(n):
+        for _ in range(100 * (1 if tier == "quick" else 6)):
             c, escaped = ext_case_of(gen_ext_scenario(r, kind, fe))
             if escaped:
                 _BROKEN.append("%s: exception escaped the front-end: %s" % (name, escaped))
             cases.append(c)
-        out.append(Suite(name, EXT_IMPORTS, EXT_CHK, cases, shard=40))
-    return out
+    return [Suite("e2e_ext", EXT_IMPORTS, EXT_CHK, cases, shard=30)]
 
 
 def dump_list_term(ds):
@@ -556,20 +554,18 @@ _BROKEN = []
 
 
 def suites(tier):
-    out = []
     _BROKEN[:] = []
-    for fe in FES:
+    cases = []
+    for fe in FES:                      # the front-end is enumerated, never drawn
         r = common.rng("C09.e2e_" + fe)
         n = {"sync_tcp": 300, "aio_tcp": 120, "tw_tcp": 120}[fe] * (1 if tier == "quick" else 6)
-        cases = []
         for _ in range(n):
             sc = gen_scenario(r, fe)
             c, escaped = case_of(sc)
             if escaped:
-                _BROKEN.append("e2e_%s: exception escaped the front-end on well-formed traffic: %s %s" % (fe, escaped, sc))
+                _BROKEN.append("e2e_tcp/%s: exception escaped the front-end on well-formed traffic: %s %s" % (fe, escaped, sc))
             cases.append(c)
-        out.append(Suite("e2e_" + fe, IMPORTS, CHK, cases, shard=60))
-    return out + serial_suites(tier) + ext_suites(tier)
+    return [Suite("e2e_tcp", IMPORTS, CHK, cases, shard=40)] + serial_suites(tier) + ext_suites(tier)
 
 
 def extra_checks(tier):
